@@ -686,3 +686,50 @@ def virtual_loops(node: ast.AST) -> List[Tuple[ast.AST, ast.AST, ast.AST]]:
         else:
             out.append((tg, it, lp))
     return out
+
+
+def mask_of(fn: ast.AST, e: ast.AST, depth: int = 3, at: Optional[ast.AST] = None) -> Optional[ast.Compare]:
+    """The comparison a mask / index expression denotes, by identity: the comparison itself (possibly wrapped in
+    .nonzero() / .squeeze() / parentheses), a name bound once to it, or the loop / comprehension variable of an
+    iteration over a list whose elements are that comparison."""
+    e = peel(e, "nonzero", "squeeze", "flatten", "bool", "to")
+    if isinstance(e, ast.Compare):
+        return e
+    if not isinstance(e, ast.Name) or depth <= 0:
+        return None
+    defs = [s_ for s_ in assignments_to(fn, e.id) if isinstance(s_, ast.Assign)]
+    if len(defs) == 1:
+        m = mask_of(fn, defs[0].value, depth - 1, defs[0])
+        if m is not None:
+            return m
+    elif at is not None:
+        rd = reaching_def(fn, e.id, at)
+        if rd is not None:
+            m = mask_of(fn, rd.value, depth - 1, rd)
+            if m is not None:
+                return m
+    for n in ast.walk(fn):
+        it = None
+        if isinstance(n, ast.comprehension) and isinstance(n.target, ast.Name) and n.target.id == e.id:
+            it = n.iter
+        elif isinstance(n, ast.For) and isinstance(n.target, ast.Name) and n.target.id == e.id:
+            it = n.iter
+        if isinstance(it, ast.Name):
+            ld = [s_ for s_ in assignments_to(fn, it.id) if isinstance(s_, ast.Assign)]
+            if len(ld) == 1 and isinstance(ld[0].value, ast.ListComp):
+                m = mask_of(fn, ld[0].value.elt, depth - 1)
+                if m is not None:
+                    return m
+    return None
+
+
+def iteration_of(node: ast.AST, var: str) -> Optional[ast.AST]:
+    """The iterable that the loop / comprehension variable `var` ranges over at `node` (innermost binding)."""
+    for a in ancestors(node):
+        if isinstance(a, (ast.ListComp, ast.GeneratorExp, ast.SetComp, ast.DictComp)):
+            for g in a.generators:
+                if var in target_names(g.target):
+                    return g.iter
+        if isinstance(a, (ast.For, ast.AsyncFor)) and var in target_names(a.target):
+            return a.iter
+    return None
